@@ -422,6 +422,14 @@ def run(ctx, replay=None):
         product("oslimits", env["REQOUT"], conc="toolong", trees=lt)
         # storage faults (no file may grow beyond 4096 bytes while the request is served): write errors are a place where paths get into messages
         wfault_universe()
+        # broken uploads whose target someone else has removed in the meantime: the clean-up's own failure must not put a path into the answer
+        files, info = _record(ctx, binp, ctx.path("obs", "fault-gone"), mode="product", trees=trees, reqs=env["FAULTOUT"], shards=vlib.NCPU,
+                              treemod=(8 if q else 2), treerem=(ctx.seed + 2) % (8 if q else 2), gone=1)
+        for f in files:
+            inputs[f] = {"trees": trees, "reqs": env["FAULTOUT"]}
+        info["universe"] = "fault-gone"
+        info_all.append(info)
+        obs.extend(files)
         # configurations: the served directory spelled with a trailing slash, "/.", a doubled separator, a dot-dot detour
         # (rotating over the recorder's shards); everything else as in the main product
         # a listing beyond a thousand resources (limits are a place where messages get written)
